@@ -1,10 +1,15 @@
-(** C03 — compile accepts exactly the JMESPath language (partial: the reference
-    parser is proved sound for the grammar of Spec/Grammar.v — it accepts only
-    sentences, with the tree of a derivation — and to terminate; its completeness
-    and the binding-power side conditions of the derivation are not
-    machine-checked; the code is tied to the reference parser by correspondence,
-    the differences being the recorded known findings).  Statements only. *)
-From JP Require Import Base Value Lexer Parser Gen.Tables Spec.TableSpec Spec.Grammar Spec.Prec Proofs.GrammarProof Proofs.ParseFuelProof.
+(** C03 — compile accepts exactly the JMESPath language.  Both directions are
+    theorems about the model of lexer.rs + parser.rs (tied to the code by the
+    correspondence check) and about the reference parser: soundness — what is
+    accepted is the flattening of a syntax tree of the grammar of
+    Spec/Grammar.v (for the code: of the grammar plus the four recorded deviation
+    forms) — and completeness — every disambiguated syntax tree of the grammar
+    (Spec/Prec.v, Spec/Disamb.v) is accepted with its abstract tree (for the
+    code: outside the one recorded deviation class of Spec/Disamb.v).
+    Partial: the lexical level is proved form by form under C09 and compared by
+    correspondence otherwise.  Statements only. *)
+From JP Require Import Base Value Lexer Parser Gen.Tables Spec.TableSpec Spec.Grammar Spec.Prec Spec.Disamb
+     Proofs.GrammarProof Proofs.ParseFuelProof Proofs.CompleteProof.
 
 Theorem C03_table_order : table_order_ok gen_lbp gen_projection_stop = true.
 Proof. vm_compute. reflexivity. Qed.
@@ -74,3 +79,82 @@ Print Assumptions C03_grammar_trees_are_extended_trees.
 
 Example C03_extension_is_proper : wfb true (CAmp CCurrent) /\ ~ wfb false (CAmp CCurrent).
 Proof. split; [cbn; auto|]. cbn. intros [H _]. discriminate H. Qed.
+
+(** Completeness of the reference parser: every syntax tree of the grammar that is
+    well formed, respects the binding powers ([prec]: operands hold only
+    tighter-binding operators at their top level) and is disambiguated in its
+    context ([dis]: every operand extends as far as it can, a projection without
+    right-hand side is followed by a token below the stop threshold, an
+    identifier before [(] is a call, [[*]] and [.*] are the wildcards) is accepted
+    from its token sequence, and the tree returned is its abstract tree (up to
+    the offsets kept for error reporting, [shape]). *)
+Theorem C03_reference_parser_complete : forall s tl c, tokenize s = Ok tl -> map snd tl = flat c ++ [TEof] ->
+  wf c -> prec (fun t => spec_lbp (kind_of t)) 0 c -> dis (fun t => spec_lbp (kind_of t)) spec_stop false TEof c ->
+  exists c', shape c' = shape c /\ ref_parse s = Ok (erase c').
+Proof. exact ref_parser_complete. Qed.
+Print Assumptions C03_reference_parser_complete.
+
+(** Completeness of the code (model of parser.rs over the generated tables):
+    every disambiguated sentence of the grammar compiles, to the tree of the
+    grammar — outside the recorded deviation class [nodotlist] excludes (a
+    multi-select list right after a dot that is continued by further operators
+    inside the same operand; known finding dot-multiselect-ends-projection). *)
+Theorem C03_code_parser_complete : forall s tl c, tokenize s = Ok tl -> map snd tl = flat c ++ [TEof] ->
+  wf c -> prec lbp 0 c -> dis lbp gen_projection_stop false TEof c -> nodotlist c ->
+  exists c', shape c' = shape c /\ parse s = Ok (erase c').
+Proof. exact code_parser_complete. Qed.
+Print Assumptions C03_code_parser_complete.
+
+(** The same for any binding-power table with the documented order, for token
+    lists (no lexer involved), for the reference parser and for the code's parser. *)
+Theorem C03_complete_on_tokens_any_table : forall T STOP, table_order_ok T STOP = true -> forall strict c tl,
+  wf c -> prec (L T) 0 c -> dis (L T) STOP false TEof c -> nd strict c -> map snd tl = flat c ++ [TEof] ->
+  exists c', shape c' = shape c /\ parse_tokens (L T) STOP strict (parse_fuel tl) tl = Ok (erase c').
+Proof. exact complete_tokens. Qed.
+Print Assumptions C03_complete_on_tokens_any_table.
+
+(** The disambiguated grammar is unambiguous: two disambiguated trees with the same
+    token sequence denote the same abstract tree (offsets aside). *)
+Theorem C03_disambiguated_grammar_unambiguous : forall T STOP c1 c2, table_order_ok T STOP = true ->
+  let L := fun t => T (kind_of t) in
+  wf c1 -> prec L 0 c1 -> dis L STOP false TEof c1 -> wf c2 -> prec L 0 c2 -> dis L STOP false TEof c2 ->
+  flat c1 = flat c2 -> unoff (erase c1) = unoff (erase c2).
+Proof. exact disambiguated_grammar_unambiguous. Qed.
+Print Assumptions C03_disambiguated_grammar_unambiguous.
+
+(** Non-vacuity: [a.b[0] || !c] and [*.[a, b] | f(&x, `1`)] as trees that meet every
+    hypothesis of the completeness theorems (both tables); and a tree of the
+    excluded class, on which the code and the reference parser do differ. *)
+Definition C03_tree_1 : cst :=
+  CBin BOr (CDot (CIdent [97]) (CIndex (CIdent [98]) 0)) (CNot (CIdent [99])).
+Definition C03_tree_2 : cst :=
+  CBin BPipe (CStarP (KDot (CMList (CIdent [97]) [CIdent [98]])))
+    (CCall 0 [102] [(true, CIdent [120]); (false, CLit (VNum (PosInt 1)))]).
+Definition C03_tree_excluded : cst := CStarP (KDot (CDot (CMList (CIdent [97]) []) (CIdent [98]))).
+
+Example C03_completeness_hypotheses_hold :
+  (wf C03_tree_1 /\ prec lbp 0 C03_tree_1 /\ dis lbp gen_projection_stop false TEof C03_tree_1 /\ nodotlist C03_tree_1) /\
+  (wf C03_tree_2 /\ prec lbp 0 C03_tree_2 /\ dis lbp gen_projection_stop false TEof C03_tree_2 /\ nodotlist C03_tree_2) /\
+  (wf C03_tree_1 /\ prec (fun t => spec_lbp (kind_of t)) 0 C03_tree_1 /\ dis (fun t => spec_lbp (kind_of t)) spec_stop false TEof C03_tree_1) /\
+  (wf C03_tree_excluded /\ prec lbp 0 C03_tree_excluded /\ dis lbp gen_projection_stop false TEof C03_tree_excluded /\ ~ nodotlist C03_tree_excluded).
+Proof.
+  unfold prec, tighter. cbn. unfold lbp, dotlist_free. cbn.
+  repeat match goal with
+         | |- _ /\ _ => split
+         | |- True => exact I
+         | |- Forall _ _ => constructor
+         | |- _ = _ => reflexivity
+         | |- _ <> _ => discriminate
+         | |- _ -> True => intros _; exact I
+         | |- tighter _ _ _ => unfold tighter; cbn
+         | |- _ < _ => first [lia | vm_compute; reflexivity]
+         | |- _ <= _ => first [lia | vm_compute; discriminate]
+         | |- ~ _ => let H := fresh in intros H; destruct H as [_ H]; discriminate H
+         end.
+Qed.
+
+Example C03_excluded_class_is_real :
+  flat C03_tree_excluded = [TStar; TDot; TLbracket; TIdentifier [97]; TRbracket; TDot; TIdentifier [98]] /\
+  ref_parse [42; 46; 91; 97; 93; 46; 98] = Ok (erase C03_tree_excluded) /\
+  parse [42; 46; 91; 97; 93; 46; 98] <> Ok (erase C03_tree_excluded).
+Proof. vm_compute. repeat split; discriminate. Qed.
